@@ -277,3 +277,8 @@ func (p *Program) vtaCallees() func(site ssa.CallInstruction) []*ssa.Function {
 }
 
 func sortStrings(s []string) { sort.Strings(s) }
+
+// inModulePkgPath: the named type is declared in the module under analysis.
+func (p *Program) inModulePkgPath(n *types.Named) bool {
+	return n != nil && n.Obj().Pkg() != nil && strings.HasPrefix(n.Obj().Pkg().Path(), modPath)
+}
